@@ -56,7 +56,9 @@ def prepare(prop, tier, cfg, keep=False):
             getattr(hooks, hook)(ctx, prop, tier, cfg, world)
         for name, b in cfg.get('builds', {'default': {}}).items():
             out = os.path.join(bindir, '%s-%s.test' % (cfg['world'], name))
-            cmd = [GO, 'test', '-c', '-trimpath', '-vet=off', '-o', out]
+            cmd = [GO, 'test', '-c', '-vet=off', '-o', out]
+            if world.get('trimpath', True):
+                cmd.insert(3, '-trimpath')
             if b.get('race'):
                 cmd.append('-race')
             if b.get('tags'):
